@@ -27,6 +27,7 @@ import (
 	"sync"
 	"time"
 
+	"verif/diffexec"
 	"verif/ev"
 	"verif/gl"
 	"verif/progenum"
@@ -184,7 +185,7 @@ func part1(tier, bridge, work, only string, acc *ev.Acc) {
 			}
 		default:
 			acc.Add("declarations_accepted", 1)
-			if len(d.Coq) == 0 && d.Kind != "import" {
+			if len(d.Coq) == 0 && d.Kind != "import" && d.GoName != "" { // a group with no specs declares nothing
 				acc.Violate(ev.Violation{Key: fmt.Sprintf("C07/silently-dropped/%s/%s", formID, pos), Msg: fmt.Sprintf("form %s at %s: no error and no output for the declaration", formID, pos), Replay: map[string]any{"part": 1, "descriptor": name}})
 			}
 		}
@@ -442,6 +443,8 @@ func main() {
 		json.Unmarshal(b, &rf)
 		if rf.Replay.Part == 1 {
 			part1("thorough", *bridge, work, rf.Replay.Descriptor, acc)
+		} else if rf.Replay.Part == 4 {
+			diffexec.CrashCheckLookalikes(*goose, work, acc)
 		} else {
 			part2("thorough", *goose, work, acc, rf.Replay.Package)
 		}
@@ -457,10 +460,11 @@ func main() {
 	part1(*tier, *bridge, work, "", acc)
 	part2(*tier, *goose, work, acc, "")
 	part3(*tier, *bridge, acc, start)
+	diffexec.CrashCheckLookalikes(*goose, work, acc)
 	os.RemoveAll(work)
 	os.Exit(acc.Done(ev.Finish{
 		Prop: "C07", Tier: *tier, Level: "exploration", Start: start,
-		Rule:        "(1) every construct of the out-of-subset catalogue (C02) plus a family of crash-prone type shapes (named slice / map / pointer types, 5-value destructuring, generics, methods on named integers, interface shapes, arrays, nested containers, defer/select/labels ...) and 12 supported controls at every statement position (quick: 4 positions), each declaration translated and printed separately by the real translator code through the overlay bridge under recover: a foreign panic, an undocumented error category, an error position outside the offending declaration or a declaration with neither error nor output is a violation. (2) packages of good (G) and bad (B) declarations in every pattern of a fixed list (B, GB, BG, GBG, BB, GBBG, BGB, BBB, ...) over 4 file layouts through the real binary with and without -ignore-errors: exit 1, exactly one located error per bad declaration, correct summary, nothing written without -ignore-errors, exactly the good declarations with it; plus two bad packages in one invocation. (3) every single mutation (node x operator: parenthesise, &/* on selector bases and call arguments, literal conversions, := to var, op-assign expansion, ++ to +=, block / if-true / function-literal wrapping of statements) of the shipped example packages (quick: append_log, async; thorough: all of internal/examples), type-checked and translated declaration by declaration in memory; ill-typed mutants are discarded and counted",
+		Rule:        "(1) every construct of the out-of-subset catalogue (C02) plus a family of crash-prone type shapes (named slice / map / pointer types, 5-value destructuring, generics, methods on named integers, interface shapes, arrays, nested containers, defer/select/labels ...) and 12 supported controls at every statement position (quick: 4 positions), each declaration translated and printed separately by the real translator code through the overlay bridge under recover: a foreign panic, an undocumented error category, an error position outside the offending declaration or a declaration with neither error nor output is a violation. (2) packages of good (G) and bad (B) declarations in every pattern of a fixed list (B, GB, BG, GBG, BB, GBBG, BGB, BBB, ...) over 4 file layouts through the real binary with and without -ignore-errors: exit 1, exactly one located error per bad declaration, correct summary, nothing written without -ignore-errors, exactly the good declarations with it; plus two bad packages in one invocation. (3) every single mutation (node x operator: parenthesise, &/* on selector bases and call arguments, literal conversions, := to var, op-assign expansion, ++ to +=, block / if-true / function-literal wrapping of statements) of the shipped example packages (quick: append_log, async; thorough: all of internal/examples), type-checked and translated declaration by declaration in memory; ill-typed mutants are discarded and counted. (4) the real binary on every look-alike package of C02 (user functions named like builtins with the builtin's and with other arities, local packages named like library packages), with and without -ignore-errors: exit status 0 or 1, no Go panic",
 		Assumptions: []string{"per-declaration translation goes through an overlay-added file in package goose that calls declsOrError and CoqDecl exactly as Decls / File.Write do", "crashes outside declaration translation (package loading, FFI detection) are covered by C08's two-FFI configurations"},
 		Extra:       map[string]any{"distinct_nontrivial": len(acc.Sets["nontrivial"])},
 	}))
